@@ -1,17 +1,16 @@
 (* Properties_C19.v — C19: the STL-free containers against their std counterparts, over ANY history.
-   Statements only.  [agrees buf size m l]: the object's size is the std size, size <= buffer length, every
-   cell the mask marks as written holds the std value, and where all visible cells are written the contents
-   ARE the std contents.  The mask leaves out exactly the cells std value-initialises but the library does
-   not (sized constructor of utl::vector, growing resize of both) — refuted below as a full statement.
-   static_vector(n) with n > Capacity is refused since the fix "static_vector(n) refuses n > Capacity". *)
+   Statements only.  Since the fixes "static_vector(n) refuses n > Capacity" and "growing resize and the sized
+   constructor value-initialise the new cells" the visible contents of utl::vector and utl::static_vector ARE the
+   contents of std::vector / a capacity-bounded std::vector after every history, cell for cell. *)
 From NM Require Import Base Index Containers ContainersProofs.
 Local Open Scope nat_scope.
 
-Theorem C19_vector_refines_std_on_written_cells : forall ops,
-  let s := vrun ops in let m := vmask_run ops in let l := std_run None ops in
-  agrees (vbuf (oa s)) (vsize (oa s)) (fst m) (fst l) /\ agrees (vbuf (ob s)) (vsize (ob s)) (snd m) (snd l).
-Proof. exact vector_refinement. Qed.
-Print Assumptions C19_vector_refines_std_on_written_cells.
+Theorem C19_vector_refines_std : forall ops,
+  let s := vrun ops in let l := std_run None ops in
+  (vcontents (oa s) = map Val (fst l) /\ vsize (oa s) = length (fst l) /\ vsize (oa s) <= length (vbuf (oa s))) /\
+  (vcontents (ob s) = map Val (snd l) /\ vsize (ob s) = length (snd l) /\ vsize (ob s) <= length (vbuf (ob s))).
+Proof. exact vector_refinement_full. Qed.
+Print Assumptions C19_vector_refines_std.
 
 (* no access outside a block, no free of a non-live block, the two objects own distinct blocks which are
    exactly the live ones; after destroying both every block allocated has been freed exactly once *)
@@ -24,13 +23,13 @@ Theorem C19_vector_memory_and_allocation_balance : forall ops,
 Proof. exact vector_memory. Qed.
 Print Assumptions C19_vector_memory_and_allocation_balance.
 
-(* any history, sized constructions beyond the capacity included (refused: the object stays empty); in
-   particular size() never exceeds the capacity *)
+(* any history, sized constructions beyond the capacity included (refused: the object stays empty); size() never
+   exceeds the capacity *)
 Theorem C19_static_vector_refines_bounded_std : forall Cap ops,
-  let s := srun Cap ops in let m := smask_run Cap ops in let l := std_run (Some Cap) ops in
-  agrees (sbuf (fst s)) (ssize (fst s)) (fst m) (fst l) /\ agrees (sbuf (snd s)) (ssize (snd s)) (snd m) (snd l) /\
-  length (sbuf (fst s)) = Cap /\ length (sbuf (snd s)) = Cap /\ ssize (fst s) <= Cap /\ ssize (snd s) <= Cap.
-Proof. exact static_vector_refinement. Qed.
+  let s := srun Cap ops in let l := std_run (Some Cap) ops in
+  (scontents (fst s) = map Val (fst l) /\ ssize (fst s) = length (fst l) /\ ssize (fst s) <= Cap /\ length (sbuf (fst s)) = Cap) /\
+  (scontents (snd s) = map Val (snd l) /\ ssize (snd s) = length (snd l) /\ ssize (snd s) <= Cap /\ length (sbuf (snd s)) = Cap).
+Proof. exact static_vector_refinement_full. Qed.
 Print Assumptions C19_static_vector_refines_bounded_std.
 
 (* beyond the capacity the operation is refused and the object is unchanged *)
@@ -48,20 +47,6 @@ Theorem C19_copies_independent : forall s o, a_only o = true -> ob (vstep s o) =
 Proof. exact copies_independent. Qed.
 Print Assumptions C19_copies_independent.
 
-(* the full statement "exactly the std contents" fails: cells exposed by a growing resize (and, for
-   utl::vector, by the sized constructor) are not value-initialised *)
-Theorem C19_value_initialisation_refuted :
-  (exists ops, vcontents (oa (vrun ops)) <> map Val (fst (std_run None ops)))
-  /\ (exists ops, vcontents (oa (vrun ops)) = [Indet; Indet] /\ fst (std_run None ops) = [0%Z; 0%Z])
-  /\ (exists ops, scontents (fst (srun 4 ops)) <> map Val (fst (std_run (Some 4) ops))).
-Proof.
-  split; [|split].
-  - exists [Push 1%Z; Push 2%Z; Push 3%Z; Resize 1; Resize 3]. vm_compute. discriminate.
-  - exists [Ctor 2]. vm_compute. split; reflexivity.
-  - exists [Push 1%Z; Push 2%Z; Resize 1; Resize 2]. vm_compute. discriminate.
-Qed.
-Print Assumptions C19_value_initialisation_refuted.
-
 (* maybe<T> / either<T,..> for a non-trivial T: assigning a value into an empty object runs T::operator= on raw
    storage, and no destructor of T ever runs *)
 Theorem C19_nontrivial_maybe_refuted : forall v st,
@@ -73,7 +58,7 @@ Print Assumptions C19_nontrivial_maybe_refuted.
 (* ---------- non-vacuity ---------- *)
 Example C19_nonvacuous_1 :
   let ops := [Push 5%Z; Push 6%Z; Push 7%Z; Push 8%Z; Push 9%Z; CopyCtor; Write 1 0%Z; Flip; Resize 2; AssignAB; SelfAssign] in
-  determined (fst (vmask_run ops)) = true /\ vcontents (oa (vrun ops)) = [Val 5%Z; Val 6%Z] /\
+  vcontents (oa (vrun ops)) = [Val 5%Z; Val 6%Z] /\
   vcontents (ob (vrun ops)) = [Val 5%Z; Val 6%Z] /\ nalloc (hp (vrun ops)) = 5 /\ nfree (hp (vrun ops)) = 3.
 Proof. vm_compute. repeat split. Qed.
 Example C19_nonvacuous_2 :
@@ -81,4 +66,11 @@ Example C19_nonvacuous_2 :
   scontents (fst (srun 4 ops)) = [Val 1%Z; Val 2%Z; Val 3%Z; Val 4%Z] /\
   fst (std_run (Some 4) ops) = [1%Z; 2%Z; 3%Z; 4%Z] /\
   ssize (fst (srun 4 [Push 7%Z; Ctor 6])) = 0 /\ fst (std_run (Some 4) [Push 7%Z; Ctor 6]) = [].
+Proof. vm_compute. repeat split. Qed.
+(* the histories that used to expose stale / indeterminate cells *)
+Example C19_nonvacuous_3 :
+  vcontents (oa (vrun [Push 1%Z; Push 2%Z; Push 3%Z; Resize 1; Resize 3])) = [Val 1%Z; Val 0%Z; Val 0%Z] /\
+  vcontents (oa (vrun [Ctor 2])) = [Val 0%Z; Val 0%Z] /\
+  vcontents (oa (vrun [Ctor 2; Resize 7])) = map Val (fst (std_run None [Ctor 2; Resize 7])) /\
+  scontents (fst (srun 4 [Push 1%Z; Push 2%Z; Resize 1; Resize 2])) = [Val 1%Z; Val 0%Z].
 Proof. vm_compute. repeat split. Qed.
